@@ -27,6 +27,16 @@ var replayDir = "/verif/replay"
 
 var replayTemplates = []*replayTemplate{
 	{
+		name: "conn_close_during_handshake.go.tmpl",
+		match: func(o *Obligation) bool {
+			return strings.Contains(o.Name, "(*transport.conn).Close:")
+		},
+		run: func(g *Gen, o *Obligation, model map[string]string) (bool, string) {
+			// fixed history: listener accepts a silent TCP peer, socket is closed mid-handshake
+			return runReplay("transport/tcp", "conn_close_during_handshake.go.tmpl", map[string]string{}, "TestZZReplayCloseDuringHandshake")
+		},
+	},
+	{
 		name: "req_send_cancels_recv.go.tmpl",
 		match: func(o *Obligation) bool {
 			return strings.HasPrefix(o.Name, "site:(*protocol/req.context).RecvMsg:before:call:Broadcast#1")
